@@ -1200,11 +1200,19 @@ namespace awkward {
         }
         combinationslen = size;
         for (int64_t j = 2;  j <= thisn;  j++) {
+          if (size - j + 1 > 0  &&  combinationslen > 1152921504606846975 / (size - j + 1)) {
+            throw std::invalid_argument(
+              std::string("number of combinations is too large") + FILENAME(__LINE__));
+          }
           combinationslen *= (size - j + 1);
           combinationslen /= j;
         }
       }
 
+      if (length() != 0  &&  combinationslen > 1152921504606846975 / length()) {
+        throw std::invalid_argument(
+          std::string("number of combinations is too large") + FILENAME(__LINE__));
+      }
       int64_t totallen = combinationslen * length();
 
       std::vector<std::shared_ptr<int64_t>> tocarry;
